@@ -181,6 +181,18 @@ def str_token(rng, feats, opts, allow_multiline):
     feats.add('str:dq' if q == 34 else 'str:sq')
     raw = bytearray([q])
     val = bytearray()
+    if k < 0.27:
+        # a message of several lines: mostly `\n`, quotes and backslashes as escapes (a long string would spell it shorter)
+        feats.add('str:escape-heavy')
+        for _ in range(rng.randint(3, 9)):
+            e, v = rng.choice(((b'\\n', 10), (b'\\n', 10), (b'\\n', 10), (b'\\\\', 92), (b'\\"', 34), (b"\\'", 39), (b'\\t', 9)))
+            raw += e
+            val.append(v)
+            w = rng.choice((b'', b'', b'game over', b'x', b'press ', b' ', b']]', b']'))
+            raw += w
+            val += w
+        raw.append(q)
+        return bytes(raw), bytes(val)
     n = rng.choice((0, 1, 2, 5, rng.randint(0, 14)))
     for _ in range(n):
         r = rng.random()
